@@ -515,6 +515,8 @@ def main(mod, argv: list[str] | None = None) -> int:
     )
     for name, sc in total["subchecks"].items():
         print(f"  {name}: eval={sc['evaluations']} nontrivial={sc['distinct_nontrivial']} {sc['wall_s']}s")
+        if os.environ.get("VERIF_SHOW_TAGS"):
+            print("    tags: " + ", ".join(f"{k}={v}" for k, v in sc.get("tags", {}).items()))
     return rc
 
 
